@@ -34,7 +34,8 @@ ASSUMPTIONS = [
     "one start and one end marker per file, start before end, both of the same style; a .byte line never directly "
     "follows a start marker's bytes; the bytes-less decoy is never followed (ignoring blank lines) by a .byte line; a "
     "wrong-bytes decoy never has the NOP bytes as a prefix of its byte sequence (NOP bytes + more bytes: not generated)",
-    "'mov w1,#111', hexadecimal marker bytes, marker comments with extra text are outside the statement (not generated)",
+    "hexadecimal marker bytes and marker comments with extra text are outside the statement (not generated); 'mov w1, #111' counts as "
+    "a look-alike that uses another register (the marker is written with x1)",
     "blank lines are not lines of the kernel (the parser drops them); expected selections list non-blank lines only",
     "--lines strings: ascending ranges, no spaces; the analysed kernel = parsed lines whose number is named, in file order",
     "metamorphic comparison tolerance 1e-9 on every number; instructions aligned by order; LCDs compared as a set of "
@@ -115,7 +116,9 @@ def decoy(isa, r):
                "wrong-bytes": "movl $111, %ebx", "wrong-bytes-end": "movl $222, %ebx"}[k]
     else:
         good = ["213", "3", "32", "31"]
-        mov = {"other-reg": "mov x2, #111", "other-val": "mov x1, #112", "other-reg-end": "mov x3, #222",
+        # "another register" includes the 32-bit name w1 (the marker is written with x1)
+        mov = {"other-reg": r.choice(["mov x2, #111", "mov w1, #111", "mov x11, #111"]), "other-val": "mov x1, #112",
+               "other-reg-end": r.choice(["mov x3, #222", "mov w1, #222"]),
                "other-val-end": "mov x1, #221", "no-bytes": "mov x1, #111", "no-bytes-end": "mov x1, #222",
                "wrong-bytes": "mov x1, #111", "wrong-bytes-end": "mov x1, #222"}[k]
     if k.startswith("no-bytes"):
